@@ -233,6 +233,7 @@ class Evaluator:
         self.transparent = set(transparent)  # local functions that return their (single) argument unchanged for our purposes (fstr)
         self.inline_prefixes = inline_prefixes
         self.max_depth = max_depth
+        self.incomplete = []  # places the evaluation could not follow (what it collected may be partial)
         self.by_path = {}
         for bid, h in prog.hir.items():
             if isinstance(h, dict) and h.get("path") and h.get("body"):
@@ -648,6 +649,7 @@ class Evaluator:
                     except _Continue:
                         continue
             # not decided within the bound: whatever the loop assigns is unknown afterwards
+            self.incomplete.append(f"loop at line {n.get('line')} not followed to its end")
             for a in list(hirq.exprs(n["body"], "Assign")) + list(hirq.exprs(n["body"], "AssignOp")):
                 l = a.get("l") or {}
                 while l.get("k") in ("Field", "Index", "Unary"):
@@ -1106,6 +1108,8 @@ class Evaluator:
                 if sub["self"] is not None and n["recv"].get("k") == "Path" and (n["recv"].get("res") or {}).get("local"):
                     env[n["recv"]["res"]["local"]] = sub["self"]
                 return r
+        if d.startswith(self.inline_prefixes) and d not in self.opaque and self.watch and (st["depth"] >= self.max_depth or d not in self.by_path):
+            self.incomplete.append(f"call of {d} at line {n.get('line')} not followed (depth / no source-level body)")
         # opaque local call: an atom over its operands.  Successive calls of a stateful method on the same receiver
         # (an iterator's next(), pop ...) are different values: they are numbered
         if all(a is not None for a in [recv] + args):
